@@ -164,7 +164,8 @@ def build_gated(macro, depths, flavour, handler, mode):
     """async profile programs whose every (branch, step) waits at a harness-controlled gate before its event.
     mode: 'one' | 'two0' (branch 0 waits at two gates per step) | 'skip0' (branch 0 has no pending point) |
     'cap0' (step 0 carries block operands: branch 0's initial value and a captured callback in every branch) |
-    'arrow' (every later step is `~-> gvia::<B, K, _>`: a function of the previous FUTURE that itself pends)"""
+    'arrow' (every later step is `~-> gvia::<B, K, _>`: a function of the previous FUTURE that itself pends) |
+    'inplace' (the last branch's initial operand awaits a pending point in place)"""
     assert macro in dsl.ASYNC
     is_try = macro in dsl.TRY
     n = len(depths)
@@ -202,6 +203,10 @@ def build_gated(macro, depths, flavour, handler, mode):
         # the initial operand is evaluated (logged) when the branch starts, i.e. not before the first poll
         if mode == "cap0" and b == 0:
             branches.append(Branch(B("ev0(\"c.0.0.0\"); %s" % fut(0, "100 * %d + int(%d)" % (b, OFF))), items))
+        elif mode == "inplace" and b == n - 1:
+            # the LAST branch's initial operand awaits a pending point in place (in the macro's own async body, while the
+            # branches are being built): the task-spawning macros have started every earlier branch by then
+            branches.append(Branch(O("after(gate(%d).await, lg(\"%d.0.o\", %s))" % (gate2_id(b, 0), b, fut(0, "100 * %d + int(%d)" % (b, OFF)))), items))
         else:
             branches.append(Branch(O("lg(\"%d.0.o\", %s)" % (b, fut(0, "100 * %d + int(%d)" % (b, OFF)))), items))
     h = None
@@ -228,7 +233,7 @@ def gates_of(depths, mode, handler=None):
         for k in range(d):
             gates.append(gate_id(b, k))
             gate_of.append((gate_id(b, k), b, k))
-            if mode == "two0" and b == 0:
+            if mode == "two0" and b == 0 or mode == "inplace" and b == len(depths) - 1 and k == 0:
                 gates.append(gate2_id(b, k))
                 gate_of.append((gate2_id(b, k), b, k))
     if handler in ("then", "and_then"):
